@@ -302,7 +302,14 @@ def decode_coder(method: bytes, props: bytes | None, data: bytes, unpack_size: i
 
         if data[:4] == b"\x50\x2a\x4d\x18":
             raise Unsupported("brotli skippable frame (zstdmt variant)")
-        return brotli.Decompressor().process(data)
+        d = brotli.Decompressor()
+        out = bytearray(d.process(data))
+        while not d.is_finished():  # the decoder hands out its output in pieces
+            more = d.process(b"")
+            if not more:
+                break  # stream not terminated (py7zr flushes but never finishes its Brotli streams); sizes/CRCs still judge it
+            out += more
+        return bytes(out)
     if name == "PPMD":
         import pyppmd
 
